@@ -267,6 +267,58 @@ func (p stProp) Gen(r *Rand, idx int, tier string) Sx {
 				continue
 			}
 		}
+		// directed "mixed refresh" scenario (hierarchical; seeded change C01-g): X is uploaded and aged
+		// into the old blocks by a burst, fresh small objects are uploaded, then ONE existence check
+		// asks for X together with fresh objects (some sorting before X, some after) - only X needs
+		// a refresh - and everything is read back under the uploaders' names
+		if hier && len(threads) == 0 && len(ops)+14 < nops && r.Chance(8) {
+			small, big := []int{}, []int{}
+			for o := 0; o < nobj; o++ {
+				if len(objs[o]) > 0 && len(objs[o])*4 <= bs {
+					small = append(small, o)
+				}
+				if len(objs[o])*2 > bs && len(objs[o]) <= bs {
+					big = append(big, o)
+				}
+			}
+			if len(small) >= 3 && len(big) > 0 {
+				put := func(o, i int) {
+					t := nextTid
+					nextTid++
+					ops = append(ops, L(A(1), AI(t), AI(o), AI(i)), L(A(2), AI(t), LBytes(objs[o])), L(A(3), AI(t), A(0)))
+				}
+				get := func(o, i int) {
+					t := nextTid
+					nextTid++
+					ops = append(ops, L(A(4), AI(t), AI(o), AI(i)), L(A(5), AI(t)))
+				}
+				x := small[0]
+				ix := inst()
+				put(x, ix)
+				for k := cur + nw + r.Intn(2); k > 0; k-- {
+					put(big[r.Intn(len(big))], ix)
+				}
+				fresh := small[1:]
+				for _, y := range fresh {
+					put(y, ix)
+				}
+				ds := []Sx{L(AI(x), AI(ix))}
+				for _, y := range fresh {
+					ds = append(ds, L(AI(y), AI(ix)))
+				}
+				names, _ := stInstanceNames(stAncSx(anc))
+				sort.Slice(ds, func(a, b int) bool {
+					return stDigestString(objs, names, ds[a].Nth(0).Int(), ds[a].Nth(1).Int()) <
+						stDigestString(objs, names, ds[b].Nth(0).Int(), ds[b].Nth(1).Int())
+				})
+				ops = append(ops, L(A(6), L(ds...)))
+				get(x, ix)
+				for _, y := range fresh {
+					get(y, ix)
+				}
+				continue
+			}
+		}
 		// directed "newer blocks unaffected" scenario: corrupt exactly one region, make the
 		// affected object old, fill the newest block so that the refresh allocation of a
 		// read of that object has to rotate, read it (detection), then read the others
